@@ -36,9 +36,9 @@ for fn, d in fns.items():
 SA = ["harness/C02/scalar_api.go"]
 GL = ["primeOrder", "defaultEndianess"]
 SPLIT = "case split on the byte length of the reduced value (big.Int.Bytes has a value-dependent length): one harness per length, each ASSUMES its length; the lengths listed cover every value"
-for n in [0, 1, 16, 31, 32, 33, 48, 64, 65]:
+for n in [0, 1, 16, 31, 32, 33, 48, 64, 65, 96]:
     for bl in range(0, min(n, 32) + 1):
-        quick = n in (0, 31, 32, 33, 64) and bl in (0, 1, 16, 31, 32)
+        quick = n in (0, 31, 32, 33, 64, 65) and bl in (0, 1, 16, 31, 32)
         H.append(dict(name="scalar.SetBytes-len%d-valuebytes%d" % (n, bl), pkg=PKG, files=SA, entry="HarnessScalarSetBytes", mode="int", params={"p0": n}, globals=GL, big_bytes_len=bl, validate=3, unwind=80, timeout_ms=120000,
                       stubs=["math/big.Int as mathematical integers", SPLIT], functions=["edwards25519.(*scalar).SetBytes", "edwards25519.(*scalar).setInt", "mod.NewIntBytes", "mod.(*Int).LittleEndian"],
                       bound="all byte strings of length %d whose value mod l has a %d-byte minimal encoding, arbitrary stale receiver" % (n, bl), tiers=(["quick", "thorough"] if quick else ["thorough"])))
